@@ -6,6 +6,7 @@ import (
 	"runtime"
 	"strings"
 	"sync"
+	"sync/atomic"
 
 	"verif/harness/core"
 	"verif/harness/memnet"
@@ -58,7 +59,8 @@ func userOf(i int) int {
 	return i
 }
 
-func prelude(env *script.Env, kind string) {
+func prelude(env *script.Env, kind string) (ended bool) {
+	ended = true
 	switch kind {
 	case "served":
 		s := env.NewSess()
@@ -82,12 +84,17 @@ func prelude(env *script.Env, kind string) {
 		}
 		c.CloseWrite()
 		c.WaitClosed(script.Guard)
+	case "cancel":
+		c := env.Dial()
+		c.Send(pgwire.CancelRequest(7, 7))
+		ended = c.WaitClosed(script.Guard)
 	case "tls-no-startup":
 		if ts, err := env.NewTLSSess(); err == nil {
 			ts.C.CloseWrite()
 			ts.C.WaitClosed(script.Guard)
 		}
 	}
+	return ended
 }
 
 type sessResult struct {
@@ -119,6 +126,9 @@ type runner struct {
 	next []int
 	res  []sessResult
 	pass func(i int) *string
+	// expired: a session of this run already waited for the whole guard: the others do not wait again
+	// (their turn would cost the guard each; one unanswered session is what the evidence check needs)
+	expired atomic.Bool
 }
 
 // startupPairs: what session i announces (different users; every other session also an
@@ -139,11 +149,16 @@ func (r *runner) passOf(i int) *string {
 }
 
 func (r *runner) start(i int) bool {
+	if r.expired.Load() {
+		r.res[i].inc = "not started: another session of the run got no answer"
+		return false
+	}
 	s := r.env.NewSess()
 	r.sess[i] = s
 	st := s.Startup(startupPairs(i), r.passOf(i))
 	if st.State == memnet.Timeout {
 		r.res[i].inc = "startup guard"
+		r.expired.Store(true)
 		return false
 	}
 	if st.Err != nil {
@@ -158,11 +173,18 @@ func (r *runner) step(i int) bool {
 	if r.next[i] >= len(r.msgs[i]) {
 		return false
 	}
+	if r.expired.Load() {
+		if r.res[i].inc == "" {
+			r.res[i].inc = "stopped: another session of the run got no answer"
+		}
+		return false
+	}
 	m := r.msgs[i][r.next[i]]
 	r.next[i]++
 	st := r.sess[i].Send(m.Bytes())
 	if st.State == memnet.Timeout {
 		r.res[i].inc = "guard"
+		r.expired.Store(true)
 		return false
 	}
 	if st.Err != nil {
@@ -216,7 +238,9 @@ func Run(c Case) core.Result {
 	cr := newRunner(c.Cfg, c.Sessions)
 	cr.pass = c.password
 	for _, k := range c.Prelude {
-		prelude(cr.env, k)
+		if !prelude(cr.env, k) {
+			break // an earlier connection that is not dealt with: the sessions below will show why
+		}
 	}
 	if len(c.Prelude) > 0 {
 		res.Labels = append(res.Labels, "earlier-connections")
@@ -305,6 +329,13 @@ func Run(c Case) core.Result {
 				if strings.Contains(g, "psql-wire.(*Server).Serve(") && strings.Contains(g, "memnet.(*srvEnd).Read") {
 					cr.env.Stop()
 					return core.Fail("C15/isolation/accept-loop-blocked", "session %d gets no answer: the accept loop waits for the input of another connection (%s):\n%s", i, c.Staller, clip(g))
+				}
+				// a connection goroutine parked on a channel of the library itself (a server-wide token,
+				// queue or gate): it waits for other connections, not for its client
+				if strings.Contains(g, "psql-wire.(*Server).serve(") && !strings.Contains(g, "memnet.") && !strings.Contains(g, "verif/harness/script") &&
+					(strings.Contains(g, "[chan receive") || strings.Contains(g, "[chan send") || strings.Contains(g, "[select")) {
+					cr.env.Stop()
+					return core.Fail("C15/isolation/blocked-on-server-wide-resource", "session %d gets no answer: its connection goroutine waits on a channel inside the library (earlier connections: %v):\n%s", i, c.Prelude, clip(g))
 				}
 				if strings.Contains(g, "jeroenrinzema/psql-wire") && (strings.Contains(g, "sync.(*Mutex).Lock") || strings.Contains(g, "sync.(*RWMutex).Lock") || strings.Contains(g, "sync.(*RWMutex).RLock")) {
 					cr.env.Stop()
